@@ -34,6 +34,14 @@ static bool ref_decode(const std::vector<uint8_t> &d, size_t off, std::string &n
   }
 }
 
+// printable form of a decoded name (label bytes are arbitrary octets)
+static std::string esc(const std::string &s)
+{
+  std::string o; char b[8];
+  for (unsigned char c : s) { if (c >= 33 && c < 127 && c != '\\') o += (char)c; else { snprintf(b, sizeof b, "\\x%02x", c); o += b; } }
+  return o;
+}
+
 int main(int argc, char **argv)
 {
   auto in = replay_io::load(argv[1]);
@@ -57,13 +65,13 @@ int main(int argc, char **argv)
     if (r > d.size()) replay_io::fail("D2: returned offset beyond the message");
     if (name.size() > 253) replay_io::fail("D3: decoded name longer than 253 characters");
     for (uint16_t p : visited) if (p >= d.size()) replay_io::fail("D5: followed a pointer outside the message");
-    if (!rok) replay_io::fail("reference decoder rejects this input (oversize label/name, bad or looping pointer) but the library accepted it: name='" + name + "'");
-    if (name != rn) replay_io::fail("decoded name differs from the reference: '" + name + "' vs '" + rn + "'");
+    if (!rok) replay_io::fail("reference decoder rejects this input (oversize label/name, bad or looping pointer) but the library accepted it: name='" + esc(name) + "'");
+    if (name != rn) replay_io::fail("decoded name differs from the reference: '" + esc(name) + "' vs '" + esc(rn) + "'");
     if (r != rend) replay_io::fail("returned offset differs from the reference: " + std::to_string(r) + " vs " + std::to_string(rend));
   }
   else if (rok)
-    replay_io::fail("S-A2: the library rejects a name the RFC 1035 reference decoder accepts ('" + rn + "', " + std::to_string(rn.size()) + " chars): " + what);
+    replay_io::fail("S-A2: the library rejects a name the RFC 1035 reference decoder accepts ('" + esc(rn) + "', " + std::to_string(rn.size()) + " chars): " + what);
   delete[] buf;
-  replay_io::ok(threw ? "rejected with DnsParseException, as the reference does" : "decoded exactly as the reference: '" + name + "'");
+  replay_io::ok(threw ? "rejected with DnsParseException, as the reference does" : "decoded exactly as the reference: '" + esc(name) + "'");
   return 0;
 }
